@@ -1,0 +1,5 @@
+//go:build !verif
+
+package nclient6
+
+func vhook(ev string, args ...interface{}) {}
